@@ -81,7 +81,12 @@ def gen_dump(rng, mode='any', perturb=False):
                 other = tids[(i + 1 + rng.randrange(len(tids) - 1)) % len(tids)]
                 inner = inner + [lambda other=other: s.syscall('BSC_getpid', other, [0, 0, 0, 0],
                                                                [0, rng.randrange(1, 1000), 0, 0]) and []]
-            s.syscall(name, tid, a, [rng.choice([0, 0, 2, 35]), rng.randrange(0, 1000), 0, 0], lk, inner=inner)
+            between = None
+            if lk and rng.random() < 0.35:             # a record of another class BETWEEN the chunks of a looked-up path
+                lk = [(p_ + '/' + 'd' * rng.choice([20, 40]), v_) for p_, v_ in lk]
+                between = lambda tid=tid: s.ev(rng.choice(['MACH_SCHED', 'MACH_MKRUNNABLE', 'DecrSet']), T_NONE, tid, [1, 2, 3, 4])  # noqa: E731
+            s.syscall(name, tid, a, [rng.choice([0, 0, 2, 35]), rng.randrange(0, 1000), 0, 0], lk, inner=inner,
+                      lookup_between=between)
         elif k < 0.30:
             name = 'MSC_mach_vm_allocate_trap'
             s.syscall(name, tid, PL.good_args(name) or [1, 2, 3, 4], [0, 0, 0, 0])
